@@ -4,6 +4,7 @@
   loop would look like. One loop iteration = one token processed = at most one callback.
 -/
 import Binson.Lemmas.Safe
+import Binson.Lemmas.Cost
 import Binson.Model.Transcribe
 namespace Binson
 
@@ -46,6 +47,57 @@ theorem c16_run_terminates (g : Parser) (ha : Alloc g) (buf : Array UInt8) (t : 
     (hb : buf.size < 2 ^ 63) (ops : List Op) (hv : ∀ op ∈ ops, op.Valid) :
     (run (init g buf t).1 ops).oof = false :=
   (run_shape ops _ (init_shape g ha buf t ht hb) hv).hno
+
+
+/-! ### The tight form: tokens processed vs bytes actually advanced over (Lemmas/Cost*.lean) -/
+
+/-- the cursor never moves backwards across a loop iteration, in any mode, on arbitrary bytes: the only
+    backwards move in the code (the lookup overshoot) un-reads exactly the one name read in the same iteration -/
+theorem c16_cursor_never_goes_back (st : LoopSt) (sn : Option (List UInt8)) (oa od : Nat)
+    (h : Shape st.p) (he : st.p.err = .none) : st.p.used ≤ (iter st sn oa od).1.p.used :=
+  iter_used_mono st sn oa od h he
+
+/-- one `_advance_parsing` call: tokens processed ≤ bytes advanced over + 1 (every mode, every lookup name, arbitrary bytes) -/
+theorem c16_advance_cost_tight (p : Parser) (scan : Scan) (sn : Option (List UInt8)) (h : Shape p) :
+    (advance p scan sn).ev.length + p.used ≤ (advance p scan sn).p.used + 1 ∧ p.used ≤ (advance p scan sn).p.used :=
+  ⟨advance_cost_tight p scan sn h, advance_used_mono p scan sn h⟩
+
+/-- the public calls that are one `_advance_parsing` call: tokens ≤ bytes advanced over + 1; get_raw (two calls): + 2 -/
+theorem c16_call_costs (p : Parser) (h : Shape p) :
+    (nextC p).2.2 + p.used ≤ (nextC p).1.used + 1 ∧
+    (goIntoObjectC p).2.2 + p.used ≤ (goIntoObjectC p).1.used + 1 ∧
+    (goIntoArrayC p).2.2 + p.used ≤ (goIntoArrayC p).1.used + 1 ∧
+    (leaveObjectC p).2.2 + p.used ≤ (leaveObjectC p).1.used + 1 ∧
+    (leaveArrayC p).2.2 + p.used ≤ (leaveArrayC p).1.used + 1 ∧
+    (getRawC p).2.2.2 + p.used ≤ (getRawC p).1.used + 2 :=
+  ⟨next_tokens p h, goIntoObject_tokens p h, goIntoArray_tokens p h, leaveObject_tokens p h, leaveArray_tokens p h, getRaw_tokens p h⟩
+
+/-- a field lookup (a loop of `_advance_parsing` calls): the loop always terminates within the model's fuel
+    (so the fuel is not a restriction), tokens ≤ 2 · bytes advanced over + 2.
+    (Factor 2 because a call that stops on an un-entered container sees its BEGIN token again on the next call;
+    a factor-1 bound for lookups is NOT claimed as a theorem — it is false for lookups issued inside arrays,
+    which the documented protocol excludes.) -/
+theorem c16_field_cost (p : Parser) (nm : List UInt8) (h : Shape p) :
+    (fieldC p nm).2.2 + 2 * p.used ≤ 2 * (fieldC p nm).1.used + 2 ∧ (∀ k, fieldLoop (p.size + 2 + k) p nm = field p nm) :=
+  ⟨field_tokens p nm h, field_terminates p nm h⟩
+
+/-- verify and any complete traversal cost time linear in the buffer length: for ANY sequence of navigation calls
+    from the start of the buffer, total tokens ≤ 2·size + 2·(number of calls); without lookups ≤ size + 2·(number of calls) -/
+theorem c16_traversal_linear (ops : List Op) (p : Parser) (h : Shape p) (h0 : p.used = 0) (hn : ∀ op ∈ ops, op.IsNav) :
+    (runC p ops).2 ≤ 2 * (run p ops).used + 2 * ops.length ∧
+    (runC p ops).2 ≤ 2 * p.size + 2 * ops.length ∧
+    ((∀ op ∈ ops, op.isField = false) →
+      (runC p ops).2 ≤ (run p ops).used + 2 * ops.length ∧ (runC p ops).2 ≤ p.size + 2 * ops.length) :=
+  traversal_linear ops p h h0 hn
+
+/-- a failed lookup re-reads at most the one name it overshot: its result is that of its last `_advance_parsing`
+    call, whose cursor either did not go back at all, or went back exactly to the start of the last token it read,
+    which is a name (string token) greater than the name looked for -/
+theorem c16_failed_lookup_rereads_one_name (p : Parser) (nm : List UInt8) (h : Shape p) (he : (field p nm).1.err = .none) :
+    (field p nm).1 = (advance (fieldLast (p.size + 2) p nm) .value (some nm)).p ∧
+    p.used ≤ (fieldLast (p.size + 2) p nm).used ∧
+    (fieldLast (p.size + 2) p nm).used ≤ (advanceLast (fieldLast (p.size + 2) p nm) .value (some nm)).p.used :=
+  ⟨(failed_lookup_rereads_one_name p nm h he).1, (failed_lookup_rereads_one_name p nm h he).2.1, (failed_lookup_rereads_one_name p nm h he).2.2.1⟩
 
 /-- non-vacuity: a shaped parser on a real document -/
 example : Shape (init (garbageParser 2) #[0x40, 0x14, 0x01, 0x61, 0x44, 0x41] 1).1 :=
